@@ -33,14 +33,6 @@ def run(ctx):
     if not ctx.build_harness():
         return ctx.finish("proof", {"evaluations": 0, "distinct_nontrivial": 0, "samples": []}, [], "lake build")
     extra = []
-    if ctx.replay:
-        import json
-        rp = json.load(open(ctx.replay))
-        src = (rp.get("cases") or [{}])[0].get("src")
-        if src:
-            f = os.path.join(ctx.run_dir, "replay.gom")
-            open(f, "w").write(src)
-            extra = ["--file", f]
     progs, feats = c01.collect(ctx, "c08", extra)
     rows = vlib.read_tsv(os.path.join(ctx.run_dir, "c08.cases.tsv")) if os.path.exists(os.path.join(ctx.run_dir, "c08.cases.tsv")) else []
     cases = [r for r in rows if len(r) >= 4 and r[1] == "CASE"]
@@ -78,6 +70,7 @@ def run(ctx):
     sim_by_flow = {}
     samples, distinct = [], set()
     n_sim_ok = n_sim_total = 0
+    invalid_kinds = {}
     for pid, d in progs.items():
         if not d["stages"]:
             continue
@@ -123,7 +116,16 @@ def run(ctx):
             # findings there); the program has no Go behaviour to compare
             n_invalid += 1
             bf["go_invalid"] += 1
-            n_invalid_liftdiff += not lift_same
+            invalid_kinds[gc[pid][1].split("|")[0] + ("|closure_env" if "closure_env" in gc[pid][1] else "")] = \
+                invalid_kinds.get(gc[pid][1].split("|")[0] + ("|closure_env" if "closure_env" in gc[pid][1] else ""), 0) + 1
+            if not lift_same:
+                # the Lift IR itself no longer means what the Mono IR means (whatever the Go looks like)
+                n_invalid_liftdiff += 1
+                kind = "stdout-differs" if o["lift"][0] == ref[0] else f"ends-differently:{ref[0].split(':')[0]}->{o['lift'][0].split(':')[0]}"
+                why = re.sub(r"^[^:]*:", "", sv[1]) if sv and len(sv) > 1 else ""
+                payload["kind"] = kind
+                ctx.report({"oracle": "lift-sem", "go_valid": False, "validator": (sv[0] + " " + why).strip() if sv else None},
+                           "the lifted program (Lift IR under Sem) no longer behaves like its Mono form; the emitted Go is ill-typed as well", payload)
             continue
         div = next((s for s in STAGES if s in o and (o[s][0], o[s][1]) != (ref[0], ref[1])), None)
         if div is None:
@@ -163,7 +165,8 @@ def run(ctx):
         "closures_lifted": sum(int(s.get("closures", 0)) for s in stats.values()),
         "closure_nodes_left_in_model_output": sum(int(s.get("closure_nodes_left", 0)) for s in stats.values()),
         "oracle_all_stages_agree(go valid)": n_agree, "impl_oracle_failures": len(ctx.violations),
-        "go_invalid(owned by C02)": n_invalid, "go_invalid_and_Sem(lift)!=Sem(mono)": n_invalid_liftdiff,
+        "go_invalid(owned by C02)": n_invalid, "go_invalid_by_gocheck_code": invalid_kinds,
+        "go_invalid_and_Sem(lift)!=Sem(mono)": n_invalid_liftdiff,
         "fuel_exhausted(skipped)": n_fuel, "extern_calls(skipped)": n_ext,
         "DirectFlow_ratio(validator accepts real Mono/Lift pair)": f"{n_sim_ok}/{n_sim_total}",
         "DirectFlow_by_flow": {k: f"{a}/{b}" for k, (a, b) in sorted(sim_by_flow.items())},
